@@ -187,20 +187,27 @@ impl<T> RcInner<T> {
 
     #[inline]
     pub(crate) fn increment_strong(&self) -> bool {
-        #[cfg(circ_verif)]
-        crate::verif::pre(crate::verif::site::U_INC_FAA1);
-        let val = State::from_raw(self.state.fetch_add(COUNT, Ordering::SeqCst));
-        if val.destructed() {
-            return false;
-        }
-        if val.strong() == 0 {
-            // The previous fetch_add created a permission to run decrement again.
-            // Now create an actual reference.
+        let mut old = State::from_raw(self.state.load(Ordering::SeqCst));
+        loop {
+            if old.destructed() {
+                return false;
+            }
+            // Incrementing from zero also creates a permission for the pending `try_destruct`
+            // to run decrement again. Both must be published atomically, otherwise that
+            // `try_destruct` can consume the permission alone and destruct the object.
+            let new = old.add_strong(if old.strong() == 0 { 2 } else { 1 });
             #[cfg(circ_verif)]
-            crate::verif::pre(crate::verif::site::U_INC_FAA2);
-            self.state.fetch_add(COUNT, Ordering::SeqCst);
+            crate::verif::pre(crate::verif::site::U_INC_FAA1);
+            match self.state.compare_exchange(
+                old.as_raw(),
+                new.as_raw(),
+                Ordering::SeqCst,
+                Ordering::SeqCst,
+            ) {
+                Ok(_) => return true,
+                Err(curr) => old = State::from_raw(curr),
+            }
         }
-        true
     }
 
     #[inline]
